@@ -73,6 +73,10 @@ type Op struct {
 	F   *CFn     `json:"f,omitempty"`
 	X   *Item    `json:"x,omitempty"`
 	Via string   `json:"via,omitempty"` // "" = package schema, "compose" = through compose's streamReaderPacker
+	// array: 0 = the slice handed to StreamReaderFromArray is allocated with exactly its length;
+	// 1 = it is a window of one arena shared by the array sources of the case (spare capacity
+	// behind it, in which the items of the array sources created later lie)
+	Spare int `json:"spare,omitempty"`
 }
 
 func natList(xs []int) string {
@@ -125,7 +129,7 @@ type Case struct {
 	Ops     []Op     `json:"ops"`
 	Writers []Writer `json:"writers,omitempty"`
 	Leaves  []Leaf   `json:"leaves,omitempty"`
-	Seed    uint64   `json:"seed,omitempty"` // yields of the conc goroutines
+	Seed    uint64   `json:"seed,omitempty"`    // yields of the conc goroutines
 	Barrier bool     `json:"barrier,omitempty"` // conc: the leaves call Close at the same instant (bounded spin barrier)
 	Reps    int      `json:"reps,omitempty"`    // conc: drive the same tree this many times (storm case)
 }
